@@ -85,3 +85,54 @@ Print Assumptions C07_confluent.
 Print Assumptions C07_fault_raises.
 Print Assumptions C07_layout_tiles.
 Print Assumptions C07_every_row_in_one_stripe.
+
+(* ---- non-vacuity: concrete runs of the model and a concrete layout ---- *)
+Definition ex_cfg : cfg := the_cfg 2 3 true.
+
+(* 3 stripes on 2 cores (pool of 3): a complete fault-free schedule *)
+Definition ex_sched_ok : list (nat * act) :=
+  [(0, Start); (1, Start); (0, Arrive1); (2, Start); (2, Arrive1); (1, Arrive1);
+   (1, Pass1); (1, Read); (0, Pass1); (1, Arrive2); (2, Pass1); (0, Read); (2, Read);
+   (0, Arrive2); (2, Arrive2);
+   (2, Pass2); (2, Finish); (0, Pass2); (1, Pass2); (1, Finish); (0, Finish)]%nat.
+
+Example C07_ex_good : good ex_cfg.
+Proof. apply C07_real_cfg_good. lia. Qed.
+
+Example C07_ex_fault_free_run :
+  run ex_cfg (init ex_cfg) ex_sched_ok = Some (final_state ex_cfg) /\
+  final (final_state ex_cfg) = true /\ has_fault ex_sched_ok = false /\
+  parent_outcome (final_state ex_cfg) = Return.
+Proof. vm_compute. repeat split; reflexivity. Qed.
+
+(* stripe 1 fails while computing its noise; the two stripes waiting at the second barrier get
+   BrokenBarrierError; the run is complete and the parent raises *)
+Definition ex_sched_fail : list (nat * act) :=
+  [(0, Start); (1, Start); (2, Start); (0, Arrive1); (1, Arrive1); (2, Arrive1);
+   (0, Pass1); (1, Pass1); (2, Pass1); (0, Read); (1, Read); (2, Read);
+   (0, Arrive2); (2, Arrive2); (1, Fail); (0, Break); (2, Break)]%nat.
+
+Example C07_ex_fault_run :
+  exists s, run ex_cfg (init ex_cfg) ex_sched_fail = Some s /\ final s = true /\
+            has_fault ex_sched_fail = true /\ parent_outcome s = Raise /\
+            (forall i a, step ex_cfg s i a = None).
+Proof.
+  eexists. split; [vm_compute; reflexivity|]. repeat split.
+  intros [|[|[|[|i]]]] a; destruct a; reflexivity.
+Qed.
+
+(* the premises of the three "what good buys" theorems are satisfiable *)
+Example C07_ex_small_pool : exists s, reachable (mkCfg 3 2 true true true true) s /\ final s = false /\
+  forall i a, step (mkCfg 3 2 true true true true) s i a = None.
+Proof. apply C07_small_pool_deadlocks; cbn; lia || reflexivity. Qed.
+
+Example C07_ex_layout : layout 100 18 = [(0, 18); (18, 36); (36, 54); (54, 72); (72, 90); (90, 100)]%Z.
+Proof. vm_compute. reflexivity. Qed.
+
+Print Assumptions C07_real_cfg_good.
+Print Assumptions C07_measure_decreases.
+Print Assumptions C07_small_pool_deadlocks.
+Print Assumptions C07_no_abort_hangs.
+Print Assumptions C07_no_second_wait_races.
+Print Assumptions C07_ex_fault_free_run.
+Print Assumptions C07_ex_fault_run.
